@@ -400,8 +400,16 @@ class REPEX_state:
 
     def set_rgen(self):
         """Set numpy random generator state from restart."""
+        # the child streams are a function of (seed, job ordinal): restore the
+        # configured seed, and never hand out an ordinal twice when this is
+        # called again after locked jobs have been re-issued.
+        spawned = self.cstep
+        if hasattr(self, "rgen"):
+            old_seq = self.rgen.bit_generator._seed_seq
+            spawned = max(spawned, old_seq.n_children_spawned)
         seed_sequence = np.random.SeedSequence(
-            entropy=0, n_children_spawned=self.cstep
+            entropy=self.config["simulation"]["seed"],
+            n_children_spawned=spawned,
         )
         self.rgen = default_rng(seed_sequence)
         self.rgen.bit_generator.state = self.config["current"]["rng_state"]
